@@ -28,6 +28,8 @@ class Index:
         self.root = root or REPO
         self._mods = {}
         self._src = {}
+        self._classes = None
+        self.canon_counts = {}
         self.consulted = []
 
     def make_resolver(self, rels=None):
@@ -98,11 +100,30 @@ class Index:
                 tree = ast.parse(self.source(rel), filename=rel)
             except SyntaxError as e:
                 raise AnalysisError(f"cannot parse {rel}: {e}")
+            if rel.endswith(".py") and os.environ.get("ALLFEDSA_NO_CANON") != "1":
+                from .canon import canonicalise
+                counts = canonicalise(tree, self._class_table())
+                for k, v in counts.items():
+                    self.canon_counts[k] = self.canon_counts.get(k, 0) + v
             for node in ast.walk(tree):
                 for ch in ast.iter_child_nodes(node):
                     ch._parent = node
             self._mods[rel] = tree
         return self._mods[rel]
+
+    def _class_table(self):
+        """classes of src/ with a repository-wide unique name (raw parse; used to decide which callee a call certainly reaches)"""
+        if self._classes is None:
+            from .canon import class_table
+            raw = []
+            for r in self.py_files("src"):
+                try:
+                    with open(self.path(r), encoding="utf-8") as f:
+                        raw.append(ast.parse(f.read()))
+                except (SyntaxError, OSError):
+                    continue
+            self._classes = class_table(raw)
+        return self._classes
 
     def classes(self, rel):
         return {n.name: n for n in self.module(rel).body if isinstance(n, ast.ClassDef)}
@@ -162,6 +183,78 @@ def loc(rel, node):
 def norm_src(node):
     """normalised statement text (insensitive to formatting) used in construct keys"""
     return re.sub(r"\s+", " ", ast.unparse(node)).strip()
+
+
+def ctor_values(e, cls=None):
+    """argument texts of a construction `Class(...)` in parameter order, whether spelled positionally or (canonical form) by keyword;
+    `e` is a node or source text.  None if `e` is not a call of `cls`."""
+    if isinstance(e, str):
+        try:
+            e = ast.parse(e, mode="eval").body
+        except SyntaxError:
+            return None
+    if not isinstance(e, ast.Call) or (cls is not None and dotted(e.func) != cls):
+        return None
+    return [norm_src(a) for a in e.args] + [norm_src(k.value) for k in e.keywords]
+
+
+def plain_text(e):
+    """source text in which constructions `Class(p=a, q=b)` (the canonical, keyword form) read `Class(a, b)` again; for rules that
+    compare a whole expression with an expected text.  `e` is a node or source text."""
+    if isinstance(e, str):
+        try:
+            e = ast.parse(e, mode="eval").body
+        except SyntaxError:
+            return e
+
+    class T(ast.NodeTransformer):
+        def visit_Call(self, n):
+            self.generic_visit(n)
+            if isinstance(n.func, ast.Name) and n.func.id[:1].isupper() and n.keywords and all(k.arg is not None for k in n.keywords):
+                n.args = list(n.args) + [k.value for k in n.keywords]
+                n.keywords = []
+            return n
+
+    return norm_src(T().visit(_strip_parents(e)))
+
+
+def bounds_in(test):
+    """constant bounds a boolean expression states on sub-expressions: [(kind, expression node, value, strict)] with kind 'lower'
+    (value < e / value <= e) or 'upper' (e < value / e <= value); conjunctions, chained comparisons and np.all(...)/(...).all()
+    wrappers are looked through.  Works on either orientation of the comparison."""
+    out = []
+
+    def lit(e):
+        try:
+            v = ast.literal_eval(e)
+            return float(v) if isinstance(v, (int, float)) and not isinstance(v, bool) else None
+        except Exception:
+            return None
+
+    def visit(t):
+        if isinstance(t, ast.BoolOp) and isinstance(t.op, ast.And):
+            for v in t.values:
+                visit(v)
+        elif isinstance(t, ast.Call) and dotted(t.func) in ("np.all", "all") and len(t.args) == 1:
+            visit(t.args[0])
+        elif isinstance(t, ast.Call) and isinstance(t.func, ast.Attribute) and t.func.attr == "all" and not t.args:
+            visit(t.func.value)
+        elif isinstance(t, ast.Compare):
+            terms = [t.left] + list(t.comparators)
+            for l, o, r in zip(terms, t.ops, terms[1:]):
+                if isinstance(o, (ast.Lt, ast.LtE)):
+                    lo, hi, strict = l, r, isinstance(o, ast.Lt)
+                elif isinstance(o, (ast.Gt, ast.GtE)):
+                    lo, hi, strict = r, l, isinstance(o, ast.Gt)
+                else:
+                    continue
+                if lit(lo) is not None and lit(hi) is None:
+                    out.append(("lower", hi, lit(lo), strict))
+                elif lit(hi) is not None and lit(lo) is None:
+                    out.append(("upper", lo, lit(hi), strict))
+
+    visit(test)
+    return out
 
 
 def walk_no_nested(node):
@@ -820,6 +913,38 @@ def find_call(index_methods, fn, name, depth=1):
             if len(inner) == 1:
                 found.append((h, inner[0], HelperView(inl, c, h)))
     return found[0] if len(found) == 1 else None
+
+
+def expand_star_args(call, inl, arity):
+    """positional argument expressions (inlined) of a call with `*T` arguments spread out: `*T` where T is a value of known length n
+    (`arity(text)` -> n or None) gives T[0..n-1]; `*(f(x) for x in T)` / `*[f(x) for x in T]` gives f(T[0]) .. f(T[n-1]).
+    None if a starred argument cannot be spread."""
+    out = []
+    for a in call.args:
+        if not isinstance(a, ast.Starred):
+            out.append(inl.expr(a))
+            continue
+        v = inl.expr(a.value)
+        if isinstance(v, (ast.GeneratorExp, ast.ListComp)) and len(v.generators) == 1 and not v.generators[0].ifs \
+                and isinstance(v.generators[0].target, ast.Name):
+            src_, var = v.generators[0].iter, v.generators[0].target.id
+            n = arity(norm_src(src_))
+            if n is None:
+                return None
+            for k in range(n):
+                repl = ast.Subscript(value=_strip_parents(src_), slice=ast.Constant(value=k), ctx=ast.Load())
+
+                class T(ast.NodeTransformer):
+                    def visit_Name(self, nd):
+                        return _strip_parents(repl) if nd.id == var else nd
+
+                out.append(T().visit(_strip_parents(v.elt)))
+            continue
+        n = arity(norm_src(v))
+        if n is None:
+            return None
+        out += [ast.Subscript(value=_strip_parents(v), slice=ast.Constant(value=k), ctx=ast.Load()) for k in range(n)]
+    return out
 
 
 def bind_args(call, fn, method=True):
